@@ -93,6 +93,14 @@ def inputs(nmax, seed, thorough):
             out.append(("generic-scaled-up", rng.standard_normal((n, n, 4)) * 2.0 ** 20, None))
             out.append(("hermitian-scaled-up", E.herm_from_spectrum(ul[-1][1], lam) * 2.0 ** 30, [x * 2.0 ** 30 for x in lam]))
             out.append(("integer-large", rng.integers(-3000, 3001, (n, n, 4)).astype(float), None))
+        if n >= 2:
+            # Hermitian dilation [[0, X], [X^H, 0]]: hollow, eigenvalues in +- pairs
+            p_ = n // 2
+            Xd = rng.standard_normal((p_, n - p_, 4))
+            Dl = np.zeros((n, n, 4))
+            Dl[:p_, p_:] = Xd
+            Dl[p_:, :p_] = np.transpose(Xd, (1, 0, 2)) * [1, -1, -1, -1]
+            out.append(("hermitian-dilation", Dl, None))
         if n >= 3:
             # NEARLY Hermitian input (asymmetry 1e-6 relative, far above the tolerance): it is a general matrix - nothing may
             # be "cleaned" away; also one triangle rounded to float32
